@@ -25,6 +25,7 @@ type AVal struct {
 	T string   `json:"t"`
 	X []string `json:"x"`
 	E string   `json:"e"`
+	R string   `json:"r"` // text of the value in MarshalLog (unescaped)
 }
 
 type Pred struct {
